@@ -19,6 +19,7 @@ item is listed in `Gen.Env.untied` (reported as a NOTE, tied by the corresponden
 import SimpleDnsModel.Generated.Envelope
 import SimpleDnsModel.Model.Match
 import SimpleDnsModel.Model.Pipeline
+import SimpleDnsModel.Model.Owned
 namespace Dns.TieEnv
 open Dns
 
@@ -541,5 +542,36 @@ compressor (`writers_agree_compressed`). This theorem reads the source only; the
 separate `MessageWriter` to instantiate. -/
 theorem message_writer_source :
     Gen.Env.messageWriter.all (· == ["forward", "forward", "start-plus-offset/minus-start"]) := by decide
+
+/-! ### 16. the arms of `RData::type_code` and `RData::into_owned` (macro `rdata_enum!`) -/
+
+/-- what a variant reports as its type, by the shape of its arm -/
+def typeOfWith (arms : List String) : RData → TYPE
+  | .flat code _ => TYPE.ofCode code
+  | .ipseckey .. => .IPSECKEY
+  | .opt _ => .OPT
+  | .null code _ => if arms.getD 1 "" = "from-carried-code" then TYPE.ofCode code else .NULL
+  | .empty t => if arms.getD 2 "" = "carried-type" then t else .NULL
+
+/-- the owned copy of a variant, by the shape of its arm (`NULL::TYPE_CODE` is 10) -/
+def intoOwnedWith (arms : List String) : RData → RData
+  | .null c d => if arms.getD 1 "" = "same-code-owned-data" then .null c (d.map id) else .null 10 (d.map id)
+  | .empty t => if arms.getD 2 "" = "same-type" then .empty t else .empty .NULL
+  | rd => rd.intoOwned
+
+/-- **`RData::type_code` reports the carried code of `NULL(code, _)` and the carried type of
+`Empty(type)`, and `RData::into_owned` keeps both** - the model's `typeOf` and `intoOwned` are the
+generic functions at the arm shapes read from the macro (an arm that rebuilds `NULL` with the
+constant type code, or reports `TYPE::NULL` for every opaque record, fails this theorem or unties
+the item) -/
+theorem rdata_enum_arms (rd : RData) :
+    rd.typeOf = typeOfWith (Gen.Env.rdataTypeCodeArms.getD ["variant-constant", "from-carried-code", "carried-type"]) rd ∧
+    rd.intoOwned = intoOwnedWith (Gen.Env.rdataIntoOwnedArms.getD ["same-variant-owned", "same-code-owned-data", "same-type"]) rd := by
+  have h1 : Gen.Env.rdataTypeCodeArms.getD ["variant-constant", "from-carried-code", "carried-type"] =
+      ["variant-constant", "from-carried-code", "carried-type"] := by decide
+  have h2 : Gen.Env.rdataIntoOwnedArms.getD ["same-variant-owned", "same-code-owned-data", "same-type"] =
+      ["same-variant-owned", "same-code-owned-data", "same-type"] := by decide
+  rw [h1, h2]
+  cases rd <;> simp [RData.typeOf, typeOfWith, RData.intoOwned, intoOwnedWith]
 
 end Dns.TieEnv
